@@ -83,3 +83,74 @@ def counters(model, info, art):
     stop = [d for n, d in out if n == "stop"][0]
     ok = seqs == [1, 2, 2, 3] and stop["num_events"] == {"primary": 3}
     return ("contradicted" if ok else "confirmed"), f"primary seq_nums {seqs} (documented [1, 2, 2, 3]), num_events={stop['num_events']}"
+
+
+def bundles(model, info, art):
+    """create/read/save/drop sequences over fake devices with overlapping / disjoint keys, checked against the documented rules"""
+    from bluesky.utils import IllegalMessageSequence
+    problems = []
+
+    class Dev:
+        parent = None
+
+        def __init__(self, name, keys):
+            self.name, self.keys = name, keys
+            self.hints = {"fields": list(keys)}
+
+        def read(self):
+            return {k: {"value": hash((self.name, k)) % 97, "timestamp": 1.0} for k in self.keys}
+
+        def describe(self):
+            return {k: {"dtype": "number", "shape": [], "source": self.name} for k in self.keys}
+
+        def read_configuration(self):
+            return {}
+
+        def describe_configuration(self):
+            return {}
+    a, b2, c = Dev("a", ["x"]), Dev("b", ["y", "z"]), Dev("c", ["x", "w"])
+    bd, out = _bundler(False)
+
+    async def go():
+        await bd.open_run(Msg("open_run"))
+        # empty bundle and drop consume nothing
+        await bd.create(Msg("create", name="primary"))
+        await bd.save(Msg("save"))
+        await bd.create(Msg("create", name="primary"))
+        await bd.read(Msg("read", a), a.read())
+        await bd.drop(Msg("drop"))
+        n0 = len(out)
+        await bd.create(Msg("create", name="primary"))
+        try:
+            await bd.create(Msg("create", name="primary"))
+            problems.append("second create accepted")
+        except IllegalMessageSequence:
+            pass
+        await bd.read(Msg("read", a), a.read())
+        await bd.read(Msg("read", b2), b2.read())
+        try:
+            await bd.read(Msg("read", c), c.read())
+            problems.append("colliding read accepted")
+        except ValueError:
+            pass
+        await bd.save(Msg("save"))
+        new = out[n0:]
+        names = [n for n, d in new]
+        if names != ["descriptor", "event"]:
+            problems.append(f"documents of the first real bundle: {names}")
+        else:
+            ev, desc = new[1][1], new[0][1]
+            if set(ev["data"]) != {"x", "y", "z"} or set(desc["data_keys"]) != {"x", "y", "z"} or ev["seq_num"] != 1:
+                problems.append(f"event data keys {sorted(ev['data'])}, descriptor keys {sorted(desc['data_keys'])}, seq_num {ev['seq_num']}")
+            if ev["data"] != {**{k: v['value'] for k, v in a.read().items()}, **{k: v['value'] for k, v in b2.read().items()}}:
+                problems.append(f"event data {ev['data']}")
+        try:
+            await bd.save(Msg("save"))
+            problems.append("save outside a bundle accepted")
+        except IllegalMessageSequence:
+            pass
+    try:
+        asyncio.run(go())
+    except Exception as e:
+        problems.append(f"{type(e).__name__}: {e}")
+    return ("confirmed" if problems else "contradicted"), "; ".join(problems) or "bundling rules as documented"
